@@ -117,6 +117,58 @@ fn d20_attribution(p: &Program, o: &Outcome, restricted: &mut Option<scm::ScResu
     }
 }
 
+/// The program without its `yield_now` calls (None if a yield is guarded or a guard refers to it).
+fn strip_yields(p: &Program) -> Option<Program> {
+    let mut q = p.clone();
+    for t in 0..q.threads.len() {
+        let ys: Vec<usize> = (0..q.threads[t].len()).filter(|&i| matches!(q.threads[t][i].k, K::Yield)).collect();
+        for &y in ys.iter().rev() {
+            if q.threads[t][y].g.is_some() || q.threads[t].iter().any(|o| o.g.as_ref().map(|g| g.idx == y).unwrap_or(false)) {
+                return None;
+            }
+            q.threads[t].remove(y);
+            for o in q.threads[t].iter_mut() {
+                if let Some(g) = o.g.as_mut() {
+                    if g.idx > y {
+                        g.idx -= 1;
+                    }
+                }
+            }
+        }
+    }
+    Some(q)
+}
+
+fn strip_yield_results(p: &Program, o: &Outcome) -> Outcome {
+    o.iter().enumerate().map(|(t, r)| r.iter().enumerate().filter(|(i, _)| !matches!(p.threads[t].get(*i).map(|x| &x.k), Some(K::Yield))).map(|(_, x)| *x).collect()).collect()
+}
+
+/// Attribution of an outcome (defect D25, for the known-findings list): the program calls
+/// `yield_now`, and loom's unbounded run of the *same program without the yields* does produce
+/// the outcome. A yield forces the pending operation of another thread; the unbounded DPOR does
+/// not treat that as a dependency, so it never tries the yield at an earlier point.
+fn d25_attribution(p: &Program, o: &Outcome, cfg: &crate::subject::Cfg, cache: &mut Option<Option<std::collections::BTreeSet<Outcome>>>) -> &'static str {
+    if !p.threads.iter().flatten().any(|x| matches!(x.k, K::Yield)) {
+        return "unattributed";
+    }
+    let set = cache.get_or_insert_with(|| {
+        strip_yields(p).and_then(|q| {
+            let mut c = cfg.clone();
+            c.preemption_bound = None;
+            let (sum, col) = run_loom(&q, &c, None);
+            if sum.verdict == Verdict::Ok {
+                Some(col.outcomes.keys().cloned().collect())
+            } else {
+                None
+            }
+        })
+    });
+    match set {
+        Some(s) if s.contains(&strip_yield_results(p, o)) => "explored-once-the-yields-are-removed",
+        _ => "unattributed",
+    }
+}
+
 fn eval_c01(job: &Job) -> JobResult {
     let p = &job.program;
     let mut res = JobResult::default();
@@ -145,12 +197,17 @@ fn eval_c01(job: &Job) -> JobResult {
             return res;
         }
         let mut restricted: Option<scm::ScResult> = None;
+        let mut strict: Option<Option<std::collections::BTreeSet<Outcome>>> = None;
         for o in &sc.done {
             if col.outcomes.contains_key(o) {
                 res.traces_validated += 1;
             } else {
                 let mut w = json!({"loom_outcomes": outs_json(col.outcomes.keys())});
-                w["attribution"] = json!(d20_attribution(p, o, &mut restricted));
+                let mut attr = d20_attribution(p, o, &mut restricted);
+                if attr == "unattributed" {
+                    attr = d25_attribution(p, o, &job.cfg, &mut strict);
+                }
+                w["attribution"] = json!(attr);
                 res.violations.push(viol("missing_outcome", fmt_outcome(o), "some iteration produces this interleaving outcome".into(), format!("{} iterations, {} outcomes", col.iters, col.outcomes.len()), w));
             }
         }
@@ -774,16 +831,21 @@ fn eval_c15(job: &Job) -> JobResult {
         res.dont_care = true;
         return res;
     }
+    // attribution (for the known-findings list): does the outcome need a thread to continue after
+    // `yield_now` without an operation of another thread in between (defect D25)?
+    let mut strict: Option<Option<std::collections::BTreeSet<Outcome>>> = None;
     for (i, b) in bounds.iter().enumerate() {
         if b.is_none() {
             continue;
         }
         for o in &sets[i] {
             if !full.contains(o) {
-                res.violations.push(viol("not_subset_of_unbounded", format!("bound={:?} {}", b, fmt_outcome(o)), "L_n ⊆ L_unbounded".into(), "outcome only found with the bound".into(), json!({})));
+                let attr = d25_attribution(p, o, &job.cfg, &mut strict);
+                res.violations.push(viol("not_subset_of_unbounded", format!("bound={:?} {}", b, fmt_outcome(o)), "L_n ⊆ L_unbounded".into(), "outcome only found with the bound".into(), json!({"attribution": attr})));
             }
             if i + 1 < bounds.len() && !sets[i + 1].contains(o) {
-                res.violations.push(viol("not_monotone", format!("bound={:?} {}", b, fmt_outcome(o)), "L_n ⊆ L_{n+1}".into(), "outcome lost when the bound grows".into(), json!({})));
+                let attr = d25_attribution(p, o, &job.cfg, &mut strict);
+                res.violations.push(viol("not_monotone", format!("bound={:?} {}", b, fmt_outcome(o)), "L_n ⊆ L_{n+1}".into(), "outcome lost when the bound grows".into(), json!({"attribution": attr})));
             }
         }
         if let Some(n) = b {
